@@ -36,13 +36,30 @@ fn hostile(u: &mut Un) -> String {
     (*u.pick(HOSTILE)).to_owned()
 }
 
+/// help texts and group titles: a hostile first line, sometimes followed by more lines - a soft
+/// break, a preserved break (newline + indent), a second paragraph. Completion output is line
+/// based, so only the first line may ever show up there.
+fn hostile_help(u: &mut Un) -> String {
+    let mut h = hostile(u);
+    if u.chance(90) {
+        let tail = hostile(u);
+        match u.below(4) {
+            0 => h.push_str(&format!("\n {}", tail)),
+            1 => h.push_str(&format!("\n\n{}", tail)),
+            2 => h.push_str(&format!("\n    {}\n    {}", tail, tail)),
+            _ => h.push_str(&format!("\n{}", tail)),
+        }
+    }
+    h
+}
+
 /// completers, groups, masks and help texts with shell metacharacters
 fn add_hostile(n: &mut Node, u: &mut Un) {
     match n {
         Node::Named(x) => {
             if u.chance(140) {
-                let mut h = hostile(u);
-                if u.chance(40) {
+                let mut h = hostile_help(u);
+                if u.chance(40) && !h.contains('\n') {
                     // a long first line
                     while h.chars().count() < 130 {
                         h.push_str(" and more words");
@@ -60,7 +77,7 @@ fn add_hostile(n: &mut Node, u: &mut Un) {
         }
         Node::Pos(p) => {
             if u.chance(100) {
-                p.help = Some(DocSpec::plain(hostile(u)));
+                p.help = Some(DocSpec::plain(hostile_help(u)));
             }
             if p.ty == Ty::Str && u.chance(150) {
                 let id = p.id;
@@ -70,13 +87,13 @@ fn add_hostile(n: &mut Node, u: &mut Un) {
         }
         Node::Cmd(c) => {
             if u.chance(100) {
-                c.help = Some(DocSpec::plain(hostile(u)));
+                c.help = Some(DocSpec::plain(hostile_help(u)));
             }
             add_hostile(&mut c.level.body, u);
         }
         Node::GroupHelp(n, d) => {
             if u.chance(128) {
-                *d = DocSpec::plain(hostile(u));
+                *d = DocSpec::plain(hostile_help(u));
             }
             add_hostile(n, u);
         }
